@@ -69,5 +69,5 @@ def main(args):
     if args.what in ("sensitivity",):
         from . import mutants
 
-        ok = mutants.run(props) and ok
+        ok = mutants.run(props if args.props else None, runs=args.runs, names=[n for n in args.names.split(',') if n] or None) and ok
     return 0 if ok else 2
